@@ -80,6 +80,14 @@ func (u Universe) pbID(key, gv, uid string) *pbresource.ID {
 	}
 }
 
+// owns reports whether the id belongs to this universe (a shared backend also holds other cases' resources).
+func (u Universe) owns(id *pbresource.ID) bool {
+	if id == nil || id.Type == nil || id.Tenancy == nil || id.Type.Group != verifGroup {
+		return false
+	}
+	return id.Type.Kind == "a"+u.KindSuffix || id.Type.Kind == "b"+u.KindSuffix
+}
+
 func (u Universe) keyOfID(id *pbresource.ID) string {
 	if id == nil || id.Type == nil || id.Tenancy == nil {
 		return "?"
